@@ -337,6 +337,10 @@ def r02d(run, C, names):
         run.check("R02d", f, f"{q} accepts every constraint keyword", not missing, construct=f"{q} lacks {sorted(missing)}",
                   message=f"{q} has no keyword for constraint(s) {sorted(missing)}",
                   necessity="the constraint cannot be declared through this entry")
+        if q == "apply":
+            # forwarding by @apply is decided as a table (R01g, helper_table.r_apply, run at the end of this check): the
+            # dict(...) literal the shape rule looked for is one layout among many (round 8)
+            continue
         kws = _kwargs_of_dict_call(f.node)
         run.floor("R02d", f"constraint forwarding table in {q}", len(kws), 10)
         bad = [(k, v) for k, v in kws if k != v]
